@@ -404,6 +404,12 @@ impl Renderable for TableRow {
             .trace_with(|| self.trace().into())?;
         let array = range.evaluate()?;
         let cols = evaluate_attr(&self.cols, runtime)?;
+        if cols == Some(0) {
+            return Error::with_msg("Invalid argument")
+                .context("argument", "cols")
+                .context("cause", "Must be at least 1")
+                .into_err();
+        }
         let limit = evaluate_attr(&self.limit, runtime)?;
         let offset = evaluate_attr(&self.offset, runtime)?.unwrap_or(0);
         let array = iter_array(array, limit, offset, false);
